@@ -235,7 +235,23 @@ impl Sim {
                 });
             }
         });
-        Sim { state, handler, port }
+        let sim = Sim { state, handler, port };
+        sim.probe_hook().await;
+        sim
+    }
+
+    /// Once per process: one listing through the library must arrive here.  If it does not, the guarded endpoint
+    /// override (MANIFEST.hooks) is no longer in the request path -- a broken harness, not a verdict about the code.
+    async fn probe_hook(&self) {
+        static DONE: std::sync::atomic::AtomicBool = std::sync::atomic::AtomicBool::new(false);
+        if DONE.swap(true, std::sync::atomic::Ordering::SeqCst) { return; }
+        let before = self.log_len();
+        let _ = nexrad_data::aws::realtime::list_chunks_in_volume("KDMX", nexrad_data::aws::realtime::VolumeIndex::new(1), 1).await;
+        if self.log_len() == before {
+            eprintln!("TOOL: a listing issued through nexrad-data did not reach the loop-back simulator: the NEXRAD_VERIF_S3_ENDPOINT hook (cfg nexrad_verif, nexrad-data/src/aws/s3.rs) is not in the request path");
+            std::process::exit(2);
+        }
+        self.clear_log();
     }
 
     pub fn set_handler(&self, h: Option<Handler>) { *self.handler.lock().expect("handler") = h; }
